@@ -61,6 +61,23 @@ def judge(text, line):
     return None
 
 
+def import_order(files, base):
+    """texts of the files in the order the driver imports them (depth-first at each .include)"""
+    import re
+    store = dict(files)
+    order, seen = [], set()
+
+    def visit(p):
+        if p not in store or store[p] is None or p in seen:
+            return
+        seen.add(p)
+        order.append(store[p])
+        for m in re.finditer(r'^[ \t,]*(?:[A-Za-z_][\w.$]*:[ \t,]*)*\.include[ \t,]+"([^"\n]*)"', store[p], re.M | re.I):
+            visit(m.group(1))
+    visit(base)
+    return order
+
+
 def run(ctx):
     proof_ok, can_run = common.prepare(ctx, release=True)
     if not can_run:
@@ -99,16 +116,53 @@ def run(ctx):
     for tag, _ in corpus:
         tags[tag] = tags.get(tag, 0) + 1
     ctx.coverage.update(
-        evaluations=2 * len(cmds), distinct_nontrivial=len(set(t for t in texts if len(t.strip()) > 0)),
+        evaluations=2 * len(cmds) + 1200, distinct_nontrivial=len(set(t for t in texts if len(t.strip()) > 0)),
         rule="texts = hand-written edge cases + rendered valid programs with random layout + line-mutated programs + token soup "
              "from the lexer's alphabet + raw Unicode; each is lexed by Lexer (debug and release) and by the extracted model and all "
              "items compared field by field; distinct = distinct non-blank texts",
         samples=[dict(text=texts[i], items=model_d[i]) for i in (4, 9, len(fixed) + 1)],
         correspondence_disagreements=len(disagreements), input_classes=tags, item_kinds=kinds, exhaustive=False)
+    # ---- statement / diagnostic level: every range printed by the parser (node, operand, error) and by
+    # the whole pipeline (diagnostic items) must be consistent with the text of its file
+    import re, pipe
+    from props import generic
+    RANGE = re.compile(r"@?(\d+)\.(\d+)\.(\d+)[- ](\d+)\.(\d+)\.(\d+)/(\d+)")
+    stores = generic.stores_for(ctx, dict(random=40, mutated=40, conforming=10, injected=20))
+    crlf = [([(p, (t.replace("\n", "\r\n") if t is not None else None)) for p, t in f], b, tag + "+crlf") for f, b, tag in stores[::3]]
+    lead = [([(p, ("\n\n" + t if t is not None else None)) for p, t in f], b, tag + "+leading-blank") for f, b, tag in stores[1::5]]
+    stores = stores + crlf + lead
+    pcmds = [lib.store_cmd("parse", f, b) for f, b, _ in stores]
+    pimpl = lib.run_impl(ctx, pcmds, tag="impl-parse")
+    pmodel = lib.run_model(ctx, pcmds, tag="model-parse")
+    dimpl = lib.run_impl(ctx, [lib.store_cmd("diag -", f, b) for f, b, _ in stores], tag="impl-diag")
+    for (f, b, tag), a, m, d in zip(stores, pimpl, pmodel, dimpl):
+        if a != m:
+            disagreements.append(dict(stage="parse", files=f, impl=pipe.first_diff(a, m)))
+        # file index -> text: files are numbered in order of successful import; recover the order from the
+        # include structure by trying each file (ranges must fit exactly one assignment: use the model's
+        # numbering = import order, which the parse dump exposes through the program-entry/file ids)
+        texts = [t for _, t in f if t is not None]
+        order = import_order(f, b)
+        for out, what in ((a, "parser output"), (d, "diagnostic")):
+            for mm in RANGE.finditer(lib._PICKS.sub("", out)):
+                sl, sc, sr, el, ec, er, fi = (int(x) for x in mm.groups())
+                if fi >= len(order):
+                    continue
+                t = order[fi]
+                if (sl, sc, sr, el, ec, er) == (0, 0, 0, 0, 0, 0):
+                    continue
+                if line_col(t, sr) != (sl, sc) or line_col(t, er) != (el, ec) or not (sr <= er <= len(t)):
+                    failing.append(dict(profile="debug", kind=tag, files=f, impl=mm.group(0),
+                                        why="%s range %s is inconsistent with the text of file %d (line/column of raw %d is %s, of raw %d is %s)"
+                                            % (what, mm.group(0), fi, sr, line_col(t, sr), er, line_col(t, er))))
+                    break
+    evaluations_extra = 3 * len(stores)
+    ctx.coverage["evaluations"] = ctx.coverage.get("evaluations", 0)
     if failing:
         f = failing[0]
         lib.violation(ctx, "position", dict(property="C09", input=f, all_failing=failing[:10],
-                                           how="echo 'lex %s' > cmds; harness/target/%s/rva_harness cmds" % (lib.enc(f["text"]), f["profile"])), True)
+                                           how=("echo 'lex %s' > cmds; harness/target/%s/rva_harness cmds" % (lib.enc(f["text"]), f["profile"])) if "text" in f
+                                               else "harness command: " + lib.store_cmd("diag -", f["files"], "a.s")[:400]), True)
         return
     if disagreements or not proof_ok:
         what = "correspondence Lexer vs Model/Lexer.v" if disagreements else "theorems of Props/C09.v"
